@@ -11,7 +11,7 @@ from .util import Counter, H, digest
 
 ENGINE_OF = {
     'C02': 'hist', 'C10': 'hist', 'C19': 'hist', 'C14': 'hist', 'C07': 'hist', 'C08': 'hist', 'C09': 'hist',
-    'C05': 'hist', 'C13': 'hist', 'C06': 'syn', 'C04': 'min', 'C11': 'hist', 'C16': 'hist', 'C20': 'trav',
+    'C05': 'hist', 'C13': 'hist', 'C06': 'syn', 'C04': 'min', 'C11': 'hist', 'C16': 'hist', 'C20': 'hist',
 }
 
 _engines = {}
